@@ -302,8 +302,7 @@ Inductive op :=
 | OBad.
 
 Section Step.
-Variable debug : bool.
-Variable sc : script.
+Context (debug : bool) (sc : script).
 Let Em := env_map sc.
 Let Es := env_set sc.
 
